@@ -169,7 +169,7 @@ static void fv_load(const char *path) {
             if (k >= 0 && k < FV_MAXOPS) { fv_parse_ops(p, &fv_eacts[k]); if (k + 1 > fv_neacts) fv_neacts = k + 1; }
         } else if (!strncmp(p, "wrap ", 5)) {
             char *tok; int c = 0; fv_wraps = (int *) malloc(sizeof(int) * (strlen(p) + 1));
-            for (tok = strtok(p + 5, " \t\r\n"); tok; tok = strtok(NULL, " \t\r\n")) fv_wraps[c++] = (tok[0] == '-') ? -1 : (tok[0] == 'p') ? -2 : atoi(tok);
+            for (tok = strtok(p + 5, " \t\r\n"); tok; tok = strtok(NULL, " \t\r\n")) fv_wraps[c++] = (tok[0] == '-') ? -1 : (tok[0] == 'p') ? -2 : (tok[0] == 's') ? -1000 - atoi(tok + 1) : atoi(tok);
             fv_nwraps = c;
         } else if (!strncmp(p, "readerr ", 8)) {
             char *tok; int c = 0; fv_readerr = (int *) malloc(sizeof(int) * (strlen(p) + 1));
@@ -352,10 +352,16 @@ static void yypanic(const char *msg, yyscan_t yyscanner) { (void) yyscanner; fv_
 #ifndef FV_GUTS0
 #define FV_GUTS0 FV_GUTS
 #endif
+static yybuffer fv_buf(long i);
 int yywrap(FV_DEF_ONLY) {
     FV_GUTS0
     int s = fv_wrap_next();
-    fv_log_int("wrap", s);
+    fv_log_int("wrap", s <= -1000 ? -3 : s);
+    if (s <= -1000) {      /* an include done by switching: go back to a buffer that was left for it, and go on */
+        yybuffer b = fv_buf(-1000 - s);
+        if (b && b != FV_CURBUF()) { yy_switch_to_buffer(b FV_AL); return 0; }
+        return 1;
+    }
     if (s == -2) {         /* end of an included buffer: pop it and go on, if there is one below */
         if (fv_depth > 0) { yypop_buffer_state(FV_A1); fv_depth--; return 0; }
         return 1;
